@@ -338,7 +338,12 @@ def plainItems (W : World) (rec : PlainRec) (env : Env) :
         | none => (.error (.dds .objectNotFound), st)
         | some g => match bindRun g.params (zipArgs results env args rtA) (zipKw results env kwargs rtK) 0 with
           | none => (.error (.exc "TypeError" f), st)
-          | some env' => rec st g env'
+          | some env' =>
+            match rec st g env' with
+            | (.ok v, st') => (.ok v, match g.storePath with
+                | some p => { st' with kept := aset st'.kept p v }
+                | none => st')
+            | r => r
       | .keep path f args kwargs rtA rtK _ =>
         match W.find f with
         | none => (.error (.dds .objectNotFound), st)
@@ -372,5 +377,39 @@ def plainFn (W : World) : Nat → PlainRec
       match fn.fails with
       | some kind => (.error (.exc kind fn.name), st')
       | none => (.ok (bodyValue W fn env results), st')
+
+/-! ## Histories: dds and plain execution side by side
+
+Plain execution of a history keeps, for every path, the value most recently kept there by a *completed* evaluation
+(what `dds.load` is expected to return later, in another evaluation). -/
+
+/-- plain execution of one request (entry call), from the values kept so far; the value is kept at the path of the entry
+call (the path of a top-level `keep`, or the path of the data function that is called or evaluated) -/
+def plainRun (W : World) (kept : LoadEnv) (rq : Request) : PRes :=
+  match W.find rq.fn with
+  | none => (.error (.dds .objectNotFound), { kept })
+  | some fn =>
+    match bindRun fn.params (rq.args.map RVal.py) (rq.kwargs.map (fun kv => (kv.1, RVal.py kv.2))) 0 with
+    | none => (.error (.exc "TypeError" rq.fn), { kept })
+    | some env =>
+      match plainFn W W.fuel { kept } fn env with
+      | (.ok v, st) =>
+        (.ok v, match (match entryPathOf rq fn with | some p => some p | none => fn.storePath) with
+          | some p => { st with kept := aset st.kept p v }
+          | none => st)
+      | r => r
+
+/-- the state of a history: the store, and what plain execution has kept at every path -/
+structure HState where
+  store : PStore := {}
+  kept : LoadEnv := []
+
+/-- the paths kept by plain execution are taken over when the evaluation under dds completed (returned and committed) -/
+def histStep (m : Nat) (h : HState) (W : World) (rq : Request) : HState :=
+  let o := evalStep m W h.store rq
+  let pr := plainRun W h.kept rq
+  let completed := match o.value with | .ok (some _) => rq.stages.contains Stage.pathCommit | _ => false
+  let kept' := match pr.1 with | .ok _ => (if completed then pr.2.kept else h.kept) | .error _ => h.kept
+  { store := o.store, kept := kept' }
 
 end Dds
